@@ -421,7 +421,11 @@ def gen_compat_name(rng):
 
 FORMAT_NAMES = ['{0}', '{0:c}', 'report{0:c}.txt', '..{0!s:.0}', '.{0!s:.0}', '{0!s:.0}', '{}', '{x}', '{0.__class__}', '{0:>300}',
                 '{{', '}', '{', '{0}{0}', '%s', '%(x)s', '%d', '%', '%(', '${x}', '$x', '\\1', '\\g<0>', 'a{0:c}b{1}']
-SEGS = FORMAT_NAMES + ['a', 'b.txt', 'index.html', 'Dir', 'IMG.PNG', '%2F', '%2f', '%2E', '%2e%2e', '%2E%2E', '.', '..', '...',
+DEVICE_NAMES = ['CON', 'con', 'PRN', 'aux', 'AUX', 'NUL', 'nul', 'COM1', 'com9', 'LPT1', 'lpt9', 'Con', 'CONIN$', 'COM0']
+DEVICE_SUFFIXES = ['', '.txt', '.php', '.%2F..%2F..%2Fx', '.a%2Fb', '.x%00y', '.tar.gz ', '.', ' ', '.%5C..%5Cx', '.x:y', '.\u2025']
+DEVICE_SEGS = [d + x for d in DEVICE_NAMES for x in DEVICE_SUFFIXES]
+TILDE_SEGS = ['~', '~root', '~nobody', '~daemon', '~%s' % (os.environ.get('USER') or 'root'), '~/', '~+', '~-', '%7E', '%7Eroot']
+SEGS = FORMAT_NAMES + DEVICE_SEGS[::5] + TILDE_SEGS + ['a', 'b.txt', 'index.html', 'Dir', 'IMG.PNG', '%2F', '%2f', '%2E', '%2e%2e', '%2E%2E', '.', '..', '...',
         '%2E.', '.%2E', '%00', 'a%00b', '%5C', '\\', '%5c..%5c', '..%2F..%2Fetc%2Fpasswd', '%2Fetc%2Fpasswd',
         '..%5C..%5Cx', '%2F%2F', 'é', '日本', '%C3%A9', '%FF', '%E0%80', '%ED%A0%80', '%F0%9F%98%80', '%F0%90',
         '%C3', '%', '%4', '%zz', '%%41', '%25', '%252F', '%252E%252E', ' ', '%20', 'a%20', 'a.', 'a ', 'a%2E',
@@ -439,11 +443,13 @@ HOSTS = ['example.com', 'example.com', 'EXAMPLE.com', 'h', 'localhost', '127.0.0
 GOOD_HOSTS = ['example.com', 'EXAMPLE.com', 'h', 'localhost', '127.0.0.1', '[::1]', '[2001:DB8::1]', 'bücher.de',
               'xn--bcher-kva.de', 'a.b.c.d.e', 'h.', 'ex_ample', '1.2.3', '日本.jp', 'a' * 63 + '.com']
 PORTS = ['', '', '', '', ':80', ':8080', ':21', ':443', ':0', ':65535', ':65536', ':', ':08080', ':x', ':-1']
-QUERIES = ['?{0:c}', '?a={0!s:.0}/..', '?%s', '', '', '', '?', '?a=b', '?x=/', '?../..', '?a=%2F&b=..', '?q=é', '?a b', '?/', '?%00', '?a=b/', '?.', '?..',
+QUERIES = ['?next=/../../x', '?{0:c}', '?a={0!s:.0}/..', '?%s', '', '', '', '?', '?a=b', '?x=/', '?../..', '?a=%2F&b=..', '?q=é', '?a b', '?/', '?%00', '?a=b/', '?.', '?..',
            '?a#frag', '?' + 'q' * 300, '?a=\\', '?%2E%2E%2F']
 
 
 def gen_seg(rng):
+    if rng.random() < 0.08:
+        return rng.choice(DEVICE_SEGS)
     if rng.random() < 0.12:
         name = gen_compat_name(rng)
         return name if rng.random() < 0.4 else urllib.parse.quote(name, safe='')
@@ -488,6 +494,8 @@ def gen_raw_url(rng):
 
 
 def gen_name(rng):
+    if rng.random() < 0.08:
+        return urllib.parse.unquote(rng.choice(DEVICE_SEGS)) + rng.choice(['', '/../../x', '\\..\\x', '\x01'])
     if rng.random() < 0.12:
         return gen_compat_name(rng)
     r = rng.random()
@@ -895,7 +903,7 @@ def gen_writer_case(rng):
 
 
 # ------------------------------------------------------------------ stream: history (order of use inside one process)
-HIST_NAMES = COMPAT_NAMES[:12] + COMPAT_DOTS + COMPAT_SEPS + ['a\x00b', 'nl\nx', 'esc\x1b[31m.txt', 'tab\there', 'bell\x07', '\x1f', 'a/b', '../x', '/etc/passwd',
+HIST_NAMES = ['con.a/../../x', 'NUL.\x00', 'aux.txt/b', 'lpt1./'] + COMPAT_NAMES[:12] + COMPAT_DOTS + COMPAT_SEPS + ['a\x00b', 'nl\nx', 'esc\x1b[31m.txt', 'tab\there', 'bell\x07', '\x1f', 'a/b', '../x', '/etc/passwd',
               'é\x01', 'A\\b:c', 'plain.txt', '..', '.', 'Ünï/\x0b', 'x' * 30 + '\x00/', '\x7f\x85']
 
 
@@ -1192,7 +1200,8 @@ ARGV_FTP = ['ftp://example.com/pub/%E2%80%A5/%E2%80%A5/etc/passwd', 'ftp://examp
             'ftp://example.com/pub/%2Fabs', 'ftp://example.com/d%2F/f%00', 'ftp://example.com/pub/nl%0Aesc%1B',
             'ftp://example.com/pub/%2E%2E/x', 'ftp://example.com/a/b%5C..%5Cc', 'ftp://example.com/A/B%2fC/']
 ARGV_HTTP = ['http://example.com/a/b.txt', 'http://example.com/', 'https://example.com/d/e?q=/../x', 'http://example.com/A/%2E%2E/b']
-ARGV_HEADERS = ['attachment; filename="../../../x"', 'attachment; filename=/etc/passwd', 'attachment; filename=a/b/c',
+ARGV_HEADERS = ['attachment; filename=aux.txt/../../x', 'attachment; filename="CON.a/../b"', 'attachment; filename=nul.\\..\\x',
+                'attachment; filename="../../../x"', 'attachment; filename=/etc/passwd', 'attachment; filename=a/b/c',
                 'attachment; filename="..\\..\\x"', 'attachment; filename=..', 'attachment; filename="t\tb\x1b[0m"',
                 'attachment; filename="dir/../../y.html"', 'attachment; filename=Ok.TXT']
 
@@ -1246,6 +1255,9 @@ def check_argv(ctx, real, scratch, case, pending):
     key = ('argv', tuple(map(tuple, case['modes'])), tuple(case['opts']), case['prefix'], tuple(case['urls']),
            case.get('existing'), case['header'], case.get('status', 200), case.get('ctype'))
     set_level(_logging.WARNING)
+    home = os.path.join(scratch, 'home')
+    os.makedirs(home, exist_ok=True)
+    os.environ['HOME'] = home               # a "~" that gets expanded lands here, not in the real home directory
     try:
         args, writer = build_writer_from_argv(real, argv)
         with _Quiet():
@@ -1340,7 +1352,7 @@ def check_argv(ctx, real, scratch, case, pending):
         if not path:
             continue
         shown_root = root
-        if root in ('.', ''):
+        if os.path.normpath(root or '.') == '.':
             shown_root = ''
             if path.startswith('./'):
                 path = path[2:]
@@ -1390,6 +1402,19 @@ def argv_cases(rng, n_random):
                 c = mk([], logopt, '<ROOT>', url, hdr)
                 c['existing'] = existing
                 cases.append(c)
+    # default / relative prefix, directories on, host directory absent: the first component comes from the URL
+    for opts in (['-x', '-nH'], ['-r', '-nH'], ['-x', '--cut-dirs=1'], ['-x', '-nH', '-N'], ['-x', '-nH', '-nc'], ['-x', '-nH', '-c'],
+                 ['-x', '-nH', '--content-disposition'], ['-nH', '-p']):
+        for prefix in (None, '.', './', 'rel', '<ROOT>'):
+            for url in ('http://example.com/~/.profile', 'http://example.com/~root/x', 'ftp://example.com/~/.ssh/authorized_keys',
+                        'http://example.com/%7E/.profile', 'http://example.com/~', 'ftp://example.com/~root/', 'http://example.com/~nobody/a/b'):
+                cases.append(mk([], opts, prefix, url, ARGV_HEADERS[-1] if '--content-disposition' in opts else None))
+    for ms in (['windows'], ['windows', 'lower'], ['windows', 'nocontrol'], ['windows', 'ascii', 'upper']):
+        for url in ('http://example.com/con.php?next=/../../x', 'ftp://example.com/pub/nul.%2F..%2F..%2Fx', 'ftp://example.com/AUX.%2Fa/com1.x%00',
+                    'http://example.com/lpt1./prn.txt ', 'ftp://example.com/COM9.%5C..%5Cx'):
+            cases.append(mk([ms], ['-x'], '<ROOT>', url))
+        for hdr in ARGV_HEADERS[:3]:
+            cases.append(mk([ms], ['-x', '--content-disposition'], '<ROOT>', ARGV_HTTP[0], hdr))
     cases.append(mk([['ascii', 'ascii']], [], '<ROOT>', ARGV_FTP[0]))
     cases.append(mk([['windows'], ['lower']], ['-x'], '<ROOT>', ARGV_FTP[0]))        # the last occurrence replaces the first
     cases.append(mk([['nocontrol'], ['unix', 'upper']], ['-x'], '<ROOT>', ARGV_FTP[4]))
@@ -1547,7 +1572,8 @@ def replay(ctx, case, kind=None, where=None):
         raise Infra('unknown replay stream %r' % s)
 
 
-FIXED_URLS = ['ftp://example.com/pub/%E2%80%A5/%E2%80%A5/etc/passwd', 'ftp://example.com/%EF%BC%8E%EF%BC%8E/%EF%BC%8F/x',
+FIXED_URLS = ['http://h/con.php?next=/../../x', 'ftp://h/pub/nul.%2F..%2F..%2Fx', 'ftp://h/AUX.%2Fa/com1.x%00', 'http://h/~/.profile',
+              'http://h/~root/x', 'ftp://example.com/pub/%E2%80%A5/%E2%80%A5/etc/passwd', 'ftp://example.com/%EF%BC%8E%EF%BC%8E/%EF%BC%8F/x',
               'ftp://h/\u2025/\uff0e\uff0e/\u2024', 'ftp://h/a\uff0f..\uff0fb', 'ftp://h/%E2%80%A4%E2%80%A4/%EF%B9%92',
               'http://example.com/', 'http://example.com/a/b', 'http://example.com/a/b/', 'http://example.com/?q',
               'ftp://h/', 'ftp://h/a%2Fb/%2E%2E/c%00', 'ftp://h/%2E%2E/%2E%2E/etc/passwd', 'ftp://h/%2e%2e%2f%2e%2e%2fx',
@@ -1590,6 +1616,7 @@ def run(ctx):
     fixed = ['', '.', '..', '...', '/', '//', 'a/b', '../x', '\\', 'a\\b', '\x00', 'a\x00', ' ', 'a ', 'a.', '. ', 'é',
              'a' * 300, 'é' * 200, '/' * 100, 'Σ', 'AΣ', 'ß', 'K', '\udc80', 'CON', 'a:b', '\x1f', '\x7f', '\x85', '%2E%2E']
     fixed += COMPAT_NAMES
+    fixed += [urllib.parse.unquote(d) for d in DEVICE_SEGS] + [d + '.txt/../../x' for d in DEVICE_NAMES[:6]]
     cases = [(cfg, n) for cfg in all_safe_cfgs() for n in fixed]
     cases += [(gen_safe_cfg(rng, other=True), gen_name(rng)) for _ in range(ctx.scale(15000, 250000))]
     rng.shuffle(cases)      # the correspondence is compared after a randomised history of other calls
